@@ -82,7 +82,7 @@ fn canon(v: Variants, depth: u32, out: &mut String) {
             out.push_str(&format!("<fn {}", c.name()));
             for u in c.upvars() {
                 out.push(' ');
-                canon(u, depth.saturating_sub(3).max(1) - 0, out);
+                canon(u, depth.saturating_sub(3), out);
             }
             out.push('>');
         }
@@ -1002,6 +1002,9 @@ enum Pat {
     M(String, u64, Vec<Pat>),
     P(String, Vec<Pat>),
     R(String, u64),
+    /// `"Closure":[{"Marked":id}, function, n, upvar…]`: the function part (sort `?` nodes only:
+    /// bytecode, types, symbols) is kept here and dropped by `normalise`
+    C(u64, Vec<Pat>, Vec<Pat>),
 }
 
 fn sort_of(key: &str) -> Option<&'static str> {
@@ -1048,7 +1051,37 @@ fn pattern(b: &[u8], n: &JNode, sort: &str, out: &mut Vec<(Pat, usize)>) -> Opti
                 out.push((Pat::R(sort.to_string(), id), n.start));
                 return Some(());
             }
-            "Closure" | "Function" | "PartialApplication" => return None,
+            "Closure" if kid.kind == JK::Arr && !kid.kids.is_empty() && kid.kids[0].kind == JK::Obj && kid.kids[0].kids.len() == 1 => {
+                let head = &kid.kids[0].kids[0];
+                let hk = head.key.as_ref().unwrap().2.as_str();
+                if head.kind != JK::Num {
+                    return None;
+                }
+                let id: u64 = std::str::from_utf8(&b[head.start..head.end]).ok()?.parse().ok()?;
+                match hk {
+                    "Reference" => {
+                        out.push((Pat::R("c".to_string(), id), n.start));
+                        return Some(());
+                    }
+                    "Marked" if kid.kids.len() >= 3 => {
+                        let mut pre = vec![];
+                        pattern(b, &kid.kids[1], "?", &mut pre)?;
+                        let mut post = vec![];
+                        for k in &kid.kids[3..] {
+                            pattern(b, k, "?", &mut post)?;
+                        }
+                        out.push((
+                            Pat::C(id, pre.into_iter().map(|x| x.0).collect(), post.into_iter().map(|x| x.0).collect()),
+                            n.start,
+                        ));
+                        return Some(());
+                    }
+                    _ => return None,
+                }
+            }
+            // Value::Function / Value::PartialApplication (objects; the *type* `Function` is an array)
+            "Function" | "PartialApplication" if kid.kind == JK::Obj => return None,
+            "Closure" => return None,
             _ => {}
         }
     }
@@ -1079,13 +1112,49 @@ fn pat_sexp(p: &Pat) -> String {
             o
         }
         Pat::R(s, id) => format!("(R {} {})", s, id),
+        Pat::C(id, _, ks) => {
+            let mut o = format!("(C c {}", id);
+            for k in ks {
+                o.push(' ');
+                o.push_str(&pat_sexp(k));
+            }
+            o.push(')');
+            o
+        }
     }
+}
+
+/// Drop the nodes of unmodelled sorts (`?`: bytecode functions, types, symbols, kinds) and number
+/// the remaining marks 0,1,2… in stream order; `map` collects raw id ↦ new id.
+fn normalise(ps: &[Pat], map: &mut std::collections::HashMap<u64, u64>) -> Vec<Pat> {
+    let mut out = vec![];
+    for p in ps {
+        match p {
+            Pat::M(s, _, _) | Pat::P(s, _) | Pat::R(s, _) if s == "?" => {}
+            Pat::M(s, id, ks) => {
+                let n = map.len() as u64;
+                map.insert(*id, n);
+                let ks = normalise(ks, map);
+                out.push(Pat::M(s.clone(), n, ks));
+            }
+            Pat::P(s, ks) => out.push(Pat::P(s.clone(), normalise(ks, map))),
+            Pat::R(s, id) => out.push(Pat::R(s.clone(), *map.get(id).unwrap_or(&(1000 + id)))),
+            Pat::C(id, _, ks) => {
+                let n = map.len() as u64;
+                map.insert(*id, n);
+                let ks = normalise(ks, map);
+                out.push(Pat::C(n, vec![], ks));
+            }
+        }
+    }
+    out
 }
 
 fn pat_tokens(p: &Pat) -> usize {
     match p {
         Pat::M(_, _, ks) | Pat::P(_, ks) => 1 + ks.iter().map(pat_tokens).sum::<usize>(),
         Pat::R(..) => 1,
+        Pat::C(_, a, b) => 1 + a.iter().map(pat_tokens).sum::<usize>() + b.iter().map(pat_tokens).sum::<usize>(),
     }
 }
 
@@ -1274,6 +1343,144 @@ fn de_payload(vm: &RootedThread, text: &[u8]) -> String {
                 }
             },
         },
+    }
+}
+
+/// `de_payload` for streams with unmodelled (`?`) nodes: ids in the answer are the normalised ones.
+fn de_payload_norm(vm: &RootedThread, text: &[u8], map_in: &std::collections::HashMap<u64, u64>) -> String {
+    match gv::catch(|| de_value(vm, text)) {
+        Err(p) => format!("(panic {})", gv::quote(&p)),
+        Ok(Err(e)) => {
+            let m = e.to_string();
+            if e.is_eof() {
+                "eof".to_string()
+            } else if let Some(i) = m.find("missing id ") {
+                let num: String = m[i + 11..].chars().take_while(|c| c.is_ascii_digit()).collect();
+                let raw: u64 = num.parse().unwrap_or(0);
+                format!("(missing {})", map_in.get(&raw).copied().unwrap_or(1000 + raw))
+            } else {
+                format!("(error {})", err_class(&m))
+            }
+        }
+        Ok(Ok(v)) => match ser_value(v.get_variant()) {
+            Err(e) => format!("(reser-error {})", gv::quote(&e)),
+            Ok(b2) => match jscan(&b2) {
+                None => "(unscannable)".to_string(),
+                Some(r) => {
+                    let mut ps = vec![];
+                    match pattern(&b2, &r, "?", &mut ps) {
+                        None => "(unsupported)".to_string(),
+                        Some(()) => {
+                            let raw: Vec<Pat> = ps.into_iter().map(|x| x.0).collect();
+                            let mut map = Default::default();
+                            let nz = normalise(&raw, &mut map);
+                            format!("(ok{})", nz.iter().map(|p| format!(" {}", pat_sexp(p))).collect::<String>())
+                        }
+                    }
+                }
+            },
+        },
+    }
+}
+
+/// Cyclic value graphs (closures of recursive bindings): the generator knows the graph, including
+/// where the cycle is entered; the model term uses `(c addr c upvar…)` for a closure (function part
+/// elided on both sides) and `(p addr sort)` for the back edge.
+fn stream_cyc(out: &mut Out, rng: &mut Rng, n: usize) {
+    let vm = mk_vm(false, false);
+    let vm2 = mk_vm(false, false);
+    for i in 0..n {
+        let extra = rng.below(3) as usize; // extra atom fields of the recursive record
+        let f_first = rng.chance(1, 2);
+        let copies = rng.range(1, 3) as usize;
+        let mut names: Vec<String> = (0..extra).map(|k| format!("x{}", k)).collect();
+        let mut vals: Vec<String> = (0..extra).map(|k| if k % 2 == 0 { format!("{}", k + 1) } else { "\"s\"".to_string() }).collect();
+        names.push("n".into());
+        vals.push("7".into());
+        if f_first {
+            names.insert(0, "f".into());
+            vals.insert(0, "\\y -> r.n #Int+ y".into());
+        } else {
+            names.push("f".into());
+            vals.push("\\y -> r.n #Int+ y".into());
+        }
+        let rec_src = format!("rec let r = {{ {} }}\nin\n", names.iter().zip(&vals).map(|(a, b)| format!("{} = {}", a, b)).collect::<Vec<_>>().join(", "));
+        // term of the record with address `ra`, whose closure field has address `ca` and upvar `up`
+        let rec_term = |ra: usize, ca: usize, up: &str| -> String {
+            let mut s = format!("(n {} 0 d (n 1000 0 f)", ra);
+            for nm in &names {
+                if nm == "f" {
+                    s.push_str(&format!(" (c {} c {})", ca, up));
+                } else {
+                    s.push_str(" a");
+                }
+            }
+            s.push(')');
+            s
+        };
+        let template = rng.below(5);
+        let (kind, src, term): (&str, String, String) = match template {
+            0 => ("cyc-record-root", format!("{}r\n", rec_src), rec_term(0, 1, "(p 0 d)")),
+            1 => ("cyc-closure-root", format!("{}r.f\n", rec_src), format!("(c 1 c {})", rec_term(0, 1, "(p 1 c)"))),
+            2 => {
+                let clo = format!("(c 1 c {})", rec_term(2, 1, "(p 1 c)"));
+                ("cyc-closure-in-array", format!("{}[{}]\n", rec_src, vec!["r.f"; copies].join(", ")), format!("(n 0 0 a{})", format!(" {}", clo).repeat(copies)))
+            }
+            3 => (
+                "cyc-mutual-in-record",
+                "rec\nlet f x = g x\nlet g x = f x\nin\n{ f, g }\n".to_string(),
+                "(n 0 0 d (n 1001 0 f) (c 1 c (c 2 c (p 1 c))) (c 2 c (p 1 c)))".to_string(),
+            ),
+            _ => (
+                "cyc-mutual-root",
+                "rec\nlet f x = if x #Int< 1 then 0 else g (x #Int- 1)\nlet g x = f x\nin\nf\n".to_string(),
+                "(c 0 c (c 1 c (p 0 c)))".to_string(),
+            ),
+        };
+        let name = format!("cyc{}", i);
+        let v = match gv::catch(|| vm.run_expr::<OpaqueValue<RootedThread, Hole>>(&name, &src)) {
+            Ok(Ok((v, _))) => v,
+            Ok(Err(e)) => {
+                out.count("cyc:rejected-by-gluon");
+                out.stats.insert("cyc:rejected-sample".into(), json!({"src": src, "err": e.to_string()}));
+                continue;
+            }
+            Err(pn) => {
+                out.oracle_fail("panic:run-cyclic-program", &format!("running a value program panicked: {}", pn), json!({"kind": "dag", "src": src}));
+                continue;
+            }
+        };
+        let bytes = match ser_value(v.get_variant()) {
+            Ok(b) => b,
+            Err(e) => {
+                out.oracle_fail("ser-value-error", &format!("serialising a closure value failed: {}", e), json!({"kind": "dag", "src": src}));
+                continue;
+            }
+        };
+        let root = jscan(&bytes).expect("serde_json output scans");
+        let mut ps = vec![];
+        if pattern(&bytes, &root, "?", &mut ps).is_none() {
+            out.count("cyc:unsupported-shape");
+            continue;
+        }
+        let raw: Vec<Pat> = ps.into_iter().map(|x| x.0).collect();
+        let mut map = Default::default();
+        let nz = normalise(&raw, &mut map);
+        let real = format!("(ok{})", nz.iter().map(|p| format!(" {}", pat_sexp(p))).collect::<String>());
+        out.case(&format!("ser {}", term), &real);
+        let pats: String = nz.iter().map(pat_sexp).collect::<Vec<_>>().join(" ");
+        let pl = de_payload_norm(&vm2, &bytes, &map);
+        out.case(&format!("de {}", pats), &pl);
+        let outcome = pl.split(|c| c == ' ' || c == ')').next().unwrap_or("").trim_start_matches('(').to_string();
+        out.count(&format!("cyc:{}:{}", kind, outcome));
+        out.class(format!("cyc:{}:{}:{}:{}", kind, extra, f_first, outcome));
+        // model-independent: a cycle entered through a closure survives the round trip unchanged
+        if kind != "cyc-record-root" && pl != real {
+            out.oracle_fail("value-roundtrip:cyclic", "a cyclic closure value changed (or was rejected) across serialise/deserialise", json!({"kind": "dag", "src": src, "before": real, "after": pl}));
+        }
+        if i % 13 == 1 {
+            out.sample(json!({"stream": "C-cyclic", "src": src, "term": term, "pattern": real, "de": pl}));
+        }
     }
 }
 
@@ -1743,6 +1950,22 @@ fn check_program(
         }
     };
     out.add("A:bytes", bytes.len() as u64);
+    // compiler output satisfies the operand part of the verifier specification (LoadVerify)
+    {
+        if let Some(fs) = module_fn_sexp(&bytes) {
+            out.case(&format!("operands {}", fs), "accept");
+            out.count("verify-spec:intact-accept");
+        }
+    }
+    // the structs are written with exactly the fields of Generated.ModuleFields, in that order
+    if p.feats.contains(&"corpus") {
+        if let Some(root) = jscan(&bytes) {
+            for (name, keys) in struct_keys(&root) {
+                out.case(&format!("fields {}", gv::quote(&name)), &strs_sexp(&keys));
+                out.count("fields:structs-compared");
+            }
+        }
+    }
     // structural: every field of the compiled module survives
     match (module_debug_compiled(&vs.a, "test", &p.src), module_debug_loaded(&vs.b, &bytes)) {
         (Ok(x), Ok(y)) => {
@@ -1878,6 +2101,127 @@ fn first_diff_kind(a: &str, b: &str) -> &'static str {
     }
 }
 
+
+// ------------------------------------------------------------------------------------------
+// Structure of the serialised module: struct keys (vs Generated.ModuleFields) and the operand view
+// of a function (vs LoadVerify.operandsOkDeep)
+// ------------------------------------------------------------------------------------------
+
+fn jget<'a>(n: &'a JNode, key: &str) -> Option<&'a JNode> {
+    n.kids.iter().find(|k| k.key.as_ref().map_or(false, |x| x.2 == key))
+}
+
+fn jkeys(n: &JNode) -> Vec<String> {
+    n.kids.iter().filter_map(|k| k.key.as_ref().map(|x| x.2.clone())).collect()
+}
+
+fn jnum(b: &[u8], n: &JNode) -> Option<u64> {
+    if n.kind != JK::Num {
+        return None;
+    }
+    std::str::from_utf8(&b[n.start..n.end]).ok()?.parse().ok()
+}
+
+/// (struct name, keys in stream order) for one instance of every struct of the module tree that
+/// occurs in this text.
+fn struct_keys(root: &JNode) -> Vec<(String, Vec<String>)> {
+    let mut out: Vec<(String, Vec<String>)> = vec![];
+    let mut add = |name: &str, n: &JNode| {
+        if n.kind == JK::Obj && !out.iter().any(|x| x.0 == name) {
+            out.push((name.to_string(), jkeys(n)));
+        }
+    };
+    add("Module", root);
+    if let Some(m) = jget(root, "module") {
+        add("CompiledModule", m);
+        if let Some(f) = jget(m, "function") {
+            let mut todo = vec![f];
+            while let Some(f) = todo.pop() {
+                add("CompiledFunction", f);
+                if let Some(d) = jget(f, "debug_info") {
+                    add("DebugInfo", d);
+                    if let Some(x) = jget(d, "source_map") {
+                        add("SourceMap", x);
+                    }
+                    if let Some(x) = jget(d, "local_map") {
+                        add("LocalMap", x);
+                        if let Some(l) = jget(x, "map").and_then(|m| m.kids.first()) {
+                            add("Local", l);
+                        }
+                    }
+                    if let Some(u) = jget(d, "upvars").and_then(|m| m.kids.first()) {
+                        add("UpvarInfo", u);
+                    }
+                }
+                if let Some(inner) = jget(f, "inner_functions") {
+                    for g in &inner.kids {
+                        todo.push(g);
+                    }
+                }
+            }
+        }
+    }
+    out
+}
+
+/// `(fn max upvars nstrings (record sizes) (instr…) (inner…))`
+fn fn_sexp(b: &[u8], f: &JNode, upvars: u64) -> Option<String> {
+    let max = jnum(b, jget(f, "max_stack_size")?)?;
+    let nstr = jget(f, "strings")?.kids.len();
+    let recs: Vec<String> = jget(f, "records")?.kids.iter().map(|r| r.kids.len().to_string()).collect();
+    let mut instrs = vec![];
+    let mut inner_upvars: std::collections::HashMap<u64, u64> = Default::default();
+    for i in &jget(f, "instructions")?.kids {
+        let s = match i.kind {
+            JK::Str => {
+                if &b[i.start..i.end] == b"\"Return\"" { "ret".to_string() } else { "x".to_string() }
+            }
+            JK::Obj if i.kids.len() == 1 => {
+                let k = &i.kids[0];
+                let name = k.key.as_ref()?.2.as_str();
+                let field = |n: &str| jget(k, n).and_then(|x| jnum(b, x));
+                match name {
+                    "TailCall" => "tc".to_string(),
+                    "Jump" => format!("(j {})", jnum(b, k)?),
+                    "CJump" => format!("(cj {})", jnum(b, k)?),
+                    "PushString" | "GetField" | "TestPolyTag" => format!("(s {})", jnum(b, k)?),
+                    "ConstructPolyVariant" => format!("(s {})", field("tag")?),
+                    "NewRecord" | "ConstructRecord" => format!("(r {} {})", field("record")?, field("args")?),
+                    "PushUpVar" => format!("(u {})", jnum(b, k)?),
+                    "MakeClosure" | "NewClosure" => {
+                        let (j, u) = (field("function_index")?, field("upvars")?);
+                        inner_upvars.entry(j).or_insert(u);
+                        format!("(c {} {})", j, u)
+                    }
+                    _ => "x".to_string(),
+                }
+            }
+            _ => return None,
+        };
+        instrs.push(s);
+    }
+    let mut inner = vec![];
+    for (j, g) in jget(f, "inner_functions")?.kids.iter().enumerate() {
+        inner.push(fn_sexp(b, g, inner_upvars.get(&(j as u64)).copied().unwrap_or(0))?);
+    }
+    Some(format!("(fn {} {} {} ({}) ({}) ({}))", max, upvars, nstr, recs.join(" "), instrs.join(" "), inner.join(" ")))
+}
+
+fn module_fn_sexp(b: &[u8]) -> Option<String> {
+    let root = jscan(b)?;
+    let m = jget(&root, "module")?;
+    let globals = jget(m, "module_globals")?.kids.len() as u64;
+    fn_sexp(b, jget(m, "function")?, globals)
+}
+
+/// Paths whose damage the type-free part of the verifier specification (`operandsOkDeep`) must catch.
+fn is_table_operand_path(path: &str) -> bool {
+    ["instructions/Jump", "instructions/CJump", "instructions/PushString", "instructions/PushUpVar", "instructions/GetField",
+     "instructions/TestPolyTag", "NewClosure/function_index", "MakeClosure/function_index", "NewClosure/upvars",
+     "MakeClosure/upvars", "ConstructRecord/record", "NewRecord/record", "ConstructRecord/args", "NewRecord/args",
+     "ConstructPolyVariant/tag"].contains(&path)
+}
+
 /// Is the JSON path an instruction operand / a function-header count that the interpreter trusts?
 fn is_operand_path(path: &str) -> bool {
     const INSTR: &[&str] = &[
@@ -1913,6 +2257,14 @@ fn judge_damaged(
             };
             out.case(&format!("globals {} {}", strs_sexp(&df), strs_sexp(&w)), pl);
             out.count(&format!("globals:{}", pl));
+        }
+        if *kind == "number" && is_table_operand_path(path) && matches!(r, LoadOutcome::Panic(_) | LoadOutcome::Crash(_)) {
+            // whatever crashes the interpreter through a table / target operand is rejected by the
+            // verifier specification
+            if let Some(fs) = module_fn_sexp(&d.1) {
+                out.case(&format!("operands {}", fs), "reject");
+                out.count("verify-spec:crashing-reject");
+            }
         }
         match r {
             LoadOutcome::Err(e) => {
@@ -2062,6 +2414,19 @@ fn main() {
         }
         if let Ok((v, _)) = vm.run_expr::<OpaqueValue<RootedThread, Hole>>("d", &src) {
             println!("value: {:?}", ser_value(v.get_variant()).map(|b| String::from_utf8_lossy(&b).into_owned()));
+            if let Ok(b) = ser_value(v.get_variant()) {
+                if let Some(r) = jscan(&b) {
+                    let mut ps = vec![];
+                    if pattern(&b, &r, "?", &mut ps).is_some() {
+                        let raw: Vec<Pat> = ps.into_iter().map(|x| x.0).collect();
+                        let mut map = Default::default();
+                        let nz = normalise(&raw, &mut map);
+                        println!("normalised: {}", nz.iter().map(pat_sexp).collect::<Vec<_>>().join(" "));
+                        let vm2 = mk_vm(fl.contains('p'), fl.contains('h'));
+                        println!("de: {}", de_payload(&vm2, &b));
+                    }
+                }
+            }
         }
         return;
     }
@@ -2126,5 +2491,7 @@ fn main() {
     // ---- stream C
     let mut rng_c = Rng::new(args.seed, 1212);
     stream_c(&mut out, &mut rng_c, if thorough { 4000 } else { 500 });
+    let mut rng_y = Rng::new(args.seed, 121212);
+    stream_cyc(&mut out, &mut rng_y, if thorough { 300 } else { 60 });
     out.finish();
 }
